@@ -60,6 +60,28 @@ pub const STMT_CTXS: &[StmtCtx] = &[
         pure_ok: false,
     },
     StmtCtx { name: "block", f: |b, _| vec![Stmt::Block(b)], in_loop: false, in_closure: false, pure_ok: true },
+    // the statements sit in the block of an if-expression that is the *condition* of a loop: not inside that loop
+    StmtCtx {
+        name: "loop-condition-block",
+        f: |mut b, _| {
+            b.push(Stmt::Expr(Expr::Bool(false)));
+            vec![Stmt::Loop(Some(if_e(Expr::Bool(true), b, Some(vec![Stmt::Expr(Expr::Bool(false))]))), vec![Stmt::Break])]
+        },
+        in_loop: false,
+        in_closure: false,
+        pure_ok: true,
+    },
+    // ... in the block of an if-expression whose value initialises a constant
+    StmtCtx {
+        name: "value-block",
+        f: |mut b, d| {
+            b.push(Stmt::Expr(int(1)));
+            vec![cdef(&format!("zv{}", d), if_e(Expr::Bool(true), b, Some(vec![Stmt::Expr(int(2))])))]
+        },
+        in_loop: false,
+        in_closure: false,
+        pure_ok: true,
+    },
     StmtCtx {
         name: "closure",
         f: |b, d| {
